@@ -46,6 +46,14 @@ DIRECTED = [
     "functie f(n) { als n < 1 { antwoord 0 } 1 + f(n - 1) } [0, f(32767)]", "functie f(n) { als n < 1 { antwoord 0 } 1 + f(n - 1) } [0, 1, f(32766)]", "functie f(n) { als n < 1 { antwoord 0 } f(n - 1) } f(65533)",
     "functie f(n, a) { als n < 1 { antwoord a } f(n - 1, a + 1) } f(21844, 0)", "functie f(n, a) { als n < 1 { antwoord a } 1 + f(n - 1, a) } [f(16383, 0), f(16384, 0)]",
     "stel a = float(\"1e-310\"); [a + a, a * 2.0, a == 0.0]", "stel x = 1.5; x + ja", "stel d = 0.0000000000000000000000000000000000000000000000000001; stel e = d * d * d * d * d * d; [e, e + e, e > 0.0]", "2.5 + \"a\"", "stel f = float(\"5e-324\"); [f, f / 2.0, f * 3.0]",
+    # floats made WITHOUT any float literal in the text (conversions only), at the edges where a mode of the processor
+    # left behind by an earlier evaluation on this thread would show: denormal operands and results, results that
+    # depend on the rounding direction, next to float programs (with literals) that end in an error
+    "stel a = float(\"1e-310\"); [a + a, a * float(2), a == float(0), a > float(0)]", "stel f = float(\"5e-324\"); [f, f + f, f * float(3), f / float(2)]",
+    "float(\"3e-308\") / float(4)", "stel m = float(\"2.2250738585072014e-308\"); [m / float(2), m - m / float(2), m * float(\"0.5\")]", "stel d = float(\"1e-200\"); [d * d, d * d * float(\"1e80\"), d * d == float(0)]",
+    "[float(1) / float(3), float(2) / float(3), float(\"0.1\") + float(\"0.2\"), float(10) / float(7)]", "stel t = float(1); stel i = 0; zolang i < 60 { t = t / float(3) + float(1); i += 1 } t",
+    "stel h = float(\"1e-320\"); stel i = 0; stel s = float(0); zolang i < 50 { s = s + h; i += 1 } [s, s == float(0)]", "int(float(\"4e-310\") * float(\"1e310\"))",
+    "stel y = 0.5; y[0]", "stel z = [0.25]; z[3]", "stel w = 1.0e-5; w()", "stel q = 2.5; zolang q { q = 1.5 }", "stel r = 1.5; -\"a\"", "functie g(n) { g(n + 1) + 0.5 } g(0)",
     "functie f(a, b, c, d, e) { [a, b, c, d, e] } f()", "functie f(a, b, c) { stel x = x; stel y = y; [a, b, c, x, y] } f(1)",
     "functie g(n) { als n > 0 { antwoord g(n - 1) } stel diep = diep; [n, diep] } g(30)", "[11, 22, 33, 44, 55, 66, 77, 88, 99, 110, 121, 132]",
     "functie vul(a, b, c, d, e, f) { [a, b, c, d, e, f] } vul(\"a\", [1], 2.5, 4, ja, 6)", "functie h() { stel p = p; stel q = [q]; als ja { stel r = r; [p, q, r] } } h()",
